@@ -14,7 +14,8 @@ Ltac Zify.zify_post_hook ::= Z.div_mod_to_equations.
 (* ------------------------------------------------------------------ outcomes *)
 (* a pointer created in the destination by canonical_ptr / canonical_list *)
 Definition cp_ok (m : bmsg) (cp : Ptr) : Prop :=
-  p_valid cp = true -> 0 <= p_seg cp < nsegs m /\ p_member cp = false /\ shape_ok cp.
+  p_valid cp = true -> 0 <= p_seg cp < nsegs m /\ p_member cp = false /\ shape_ok cp /\
+                       (p_kind cp = KStruct -> DataSize (p_size cp) mod 8 = 0).
 
 Definition kpostw (w : world) (r : cout world) : Prop :=
   match r with KPanic => False | KOk w' => wgood w w' | _ => True end.
@@ -22,7 +23,7 @@ Definition kpostp (w : world) (r : cout (world * Ptr)) : Prop :=
   match r with KPanic => False | KOk (w', cp) => wgood w w' /\ cp_ok (w_dst w') cp | _ => True end.
 
 Lemma cp_ok_grows m m' cp : grows m m' -> cp_ok m cp -> cp_ok m' cp.
-Proof. intros [G _] H V. destruct (H V) as (A & B & C). split; [lia|]. split; assumption. Qed.
+Proof. intros [G _] H V. destruct (H V) as (A & B & C & D). split; [lia|]. split; [assumption|]. split; assumption. Qed.
 Lemma cp_ok_null m : cp_ok m nullPtr.
 Proof. intros X. discriminate X. Qed.
 
@@ -46,15 +47,15 @@ Lemma write_ptr_nocopy_safe f w dsid off cp : dok (w_dst w) -> 0 <= w_src_rl w -
   region_ok (w_dst w) dsid off 8 -> cp_ok (w_dst w) cp ->
   rpost w (write_ptr (S f) true w dsid off InDst cp false).
 Proof.
-  intros Hd Hr Hreg Hcp. cbn [write_ptr].
+  intros Hd Hr Hreg Hcp. rewrite write_ptr_S.
   destruct (p_valid cp) eqn:V; cbn [negb]; [|apply lift0_write_safe; assumption].
-  destruct (Hcp V) as (Hs & Hm & Hsh). specialize (Hsh V).
+  destruct (Hcp V) as (Hs & Hm & Hsh & Hal). specialize (Hsh V).
   destruct (p_kind cp) eqn:K.
   - destruct (os_isZero (p_size cp)).
     { destruct (rawStructPointer (-1) (mkOS 0 0)) eqn:E; [|vm_compute in E; discriminate].
       cbn [of_opt_panic bind]. apply lift0_write_safe; assumption. }
     cbn [is_src orb]. rewrite Hm. cbn [bind].
-    destruct (rawStructPointer_some 0 (p_size cp) Hsh) as [raw ->]. cbn [of_opt_panic bind].
+    destruct (rawStructPointer_some 0 (p_size cp) (Hal eq_refl)) as [raw ->]. cbn [of_opt_panic bind].
     apply place_safe; assumption.
   - cbn [is_src orb bind].
     pose proof (list_raw_shape cp V K ltac:(intros _; rewrite K; exact Hsh)) as NR.
@@ -145,7 +146,7 @@ Proof.
   split; [exact D1|]. split; [exact G1|]. split.
   { split; [reflexivity|]. split; [exact Hw|]. unfold region_ok. cbn [p_seg p_off p_size]. lia. }
   split; [|split; [reflexivity|split; assumption]].
-  intros _. cbn [p_seg p_member]. split; [exact S1|]. split; [reflexivity|]. intros _. cbn [p_kind p_size]. exact H8.
+  intros _. cbn [p_seg p_member]. split; [exact S1|]. split; [reflexivity|]. split; [intros _; exact I|]. intros _. cbn [p_size]. exact H8.
 Qed.
 
 Lemma mask_last_length n bs : length (mask_last n bs) = length bs.
@@ -172,7 +173,7 @@ Proof.
   cbn [p_seg p_off]. split; [exact D1|]. split; [exact G1|]. split; [lia|]. split; [unfold region_ok; lia|].
   split; [|split; [reflexivity|split; assumption]].
   intros _. cbn [p_seg p_member]. split; [exact S1|]. split; [reflexivity|].
-  intros _. cbn [p_kind p_comp p_bit p_size]. unfold prim_size. tauto.
+  split; [|cbn [p_kind]; discriminate]. intros _. cbn [p_kind p_comp p_bit p_size]. unfold prim_size. tauto.
 Qed.
 
 Lemma newCompositeList_safe m sid sz n : dok m -> 0 <= sid < nsegs m -> csz_ok sz ->
@@ -204,7 +205,7 @@ Proof.
   split; [lia|]. split; [exact Hw|]. split; [unfold region_ok; rewrite N2, (L2 s1) by lia; lia|].
   split; [|split; [reflexivity|split; congruence]].
   intros _. cbn [p_seg p_member]. split; [rewrite N2; exact S1|]. split; [reflexivity|].
-  intros _. cbn [p_kind p_comp p_bit p_size p_off]. split; [lia|]. split; [exact H8|reflexivity].
+  split; [|cbn [p_kind]; discriminate]. intros _. cbn [p_kind p_comp p_bit p_size p_off]. split; [lia|]. split; [exact H8|reflexivity].
 Qed.
 
 (* ------------------------------------------------------------------ unfolding equations *)
@@ -389,7 +390,7 @@ Proof.
     split.
     + change (wgood w (w_set_dst w m2)). apply wgood_set_dst; auto. eapply grows_trans; [exact G1|apply same_len_grows; auto].
     + intros _. cbn [p_seg p_member]. split; [rewrite N2; exact S1|]. split; [reflexivity|].
-      intros _. cbn [p_kind p_comp p_bit p_size]. rewrite C in *. exact Hsh'.
+      split; [|cbn [p_kind]; discriminate]. intros _. cbn [p_kind p_comp p_bit p_size]. rewrite C in *. exact Hsh'.
   - destruct (p_comp l) eqn:C; cbn [negb].
     + (* struct list *)
       assert (p_bit l = false) as B by (destruct Hsh' as (_ & _ & X); exact X).
